@@ -379,7 +379,7 @@ fn apply(m: &mut RefStatus, u: &U, mav: bool, tst: Option<Error>, trg: Option<Er
             m.esr = 0;
             n(x as u64)
         }
-        U::Idn => Out::Ok(Some(b"VERIF,HARNESS,0,1".to_vec())),
+        U::Idn => Out::Ok(Some(m.idn.to_vec())),
         U::Opc => {
             m.esr |= 0x01;
             m.queue.push(QItem { code: -800, msg: b"Operation complete".to_vec(), ext: None });
@@ -570,6 +570,10 @@ fn run_history<Q: QueueBackend + 'static>(rng: &mut Rng, ctx: &mut Ctx, focus: F
     }
     let mut dev: StdDev<Q> = StdDev::new();
     let mut m = RefStatus::new(Q::CAP);
+    if typed {
+        // this tree's *IDN? has empty manufacturer and serial-number fields (allowed: "ASCII character 0" or nothing)
+        m.idn = b",HARNESS,,1";
+    }
     let p = format!("{:?}", focus);
     let long = if rng.chance(1, 10) { 196 } else { 56 };
     let nsteps = if ctx.cfg.tiny { 10 + rng.usize(15) } else { 5 + rng.usize(long) };
@@ -793,6 +797,18 @@ fn run_history<Q: QueueBackend + 'static>(rng: &mut Rng, ctx: &mut Ctx, focus: F
                 ctx.violation(&format!("{}:answer-does-not-fit-but-not-reported-queued-and-flagged:{}", p, unit_name(&units[0])), jobj(&[("queue_backend", jstr(Q::NAME)), ("message", jbytes(&msg)), ("capacity", cap.to_string()), ("result", jstr(&format!("{:?}", r.as_ref().map_err(|e| e.get_code())))), ("queue_codes", jstr(&format!("{:?}", q.iter().map(|i| i.code).collect::<Vec<_>>()))), ("esr", dev.esr.to_string())]));
                 return;
             }
+            // whatever the failed read consumed, it consumed from the front: what is left is a suffix of the queue as it was,
+            // in the same order, followed by the -225 of this message (growable queues; a bounded one may also have overflowed)
+            if Q::CAP.is_none() {
+                let was: Vec<QItem> = before.queue.q.iter().cloned().collect();
+                let left = &q[..q.len() - 1];
+                let is_suffix = left.len() <= was.len() && was[was.len() - left.len()..] == *left;
+                if !is_suffix {
+                    ctx.violation(&format!("{}:failed-queue-read-reorders-or-duplicates-entries:{}", p, unit_name(&units[0])), jobj(&[("queue_backend", jstr(Q::NAME)), ("message", jbytes(&msg)), ("capacity", cap.to_string()), ("queue_codes_before", jstr(&format!("{:?}", was.iter().map(|i| i.code).collect::<Vec<_>>()))), ("queue_codes_after", jstr(&format!("{:?}", q.iter().map(|i| i.code).collect::<Vec<_>>())))]));
+                    return;
+                }
+                ctx.count("messages.fixed-capacity-buffer.answer-does-not-fit.queue-order-checked");
+            }
             m.queue.q.clear();
             for it in q {
                 m.queue.q.push_back(it);
@@ -941,7 +957,138 @@ fn run_history<Q: QueueBackend + 'static>(rng: &mut Rng, ctx: &mut Ctx, focus: F
     ctx.sample(|| jobj(&[("queue_backend", jstr(Q::NAME)), ("last_messages_of_history", jstr(&t.join("  |  ")))]));
 }
 
+// ---- a plain IEEE 488.2 device: implements only `IEEE4882` (no SCPI status structures, no error queue) and keeps the
+// trait's provided `stb()`. Its status byte has ESB (bit 5), MAV (bit 4, from the interface) and MSS (bit 6 = one of those
+// enabled by *SRE); everything else of the C16 statement about *ESE/*SRE/*ESR?/*OPC/*OPC?/*CLS applies unchanged.
+pub struct Plain {
+    sre: u8,
+    ese: u8,
+    esr: u8,
+}
+impl scpi::Device for Plain {
+    fn handle_error(&mut self, err: Error) {
+        self.esr |= err.esr_mask();
+    }
+}
+impl scpi_contrib::ieee488::IEEE4882 for Plain {
+    fn sre(&self) -> u8 {
+        self.sre
+    }
+    fn set_sre(&mut self, value: u8) {
+        self.sre = value
+    }
+    fn esr(&self) -> u8 {
+        self.esr
+    }
+    fn set_esr(&mut self, value: u8) {
+        self.esr = value
+    }
+    fn ese(&self) -> u8 {
+        self.ese
+    }
+    fn set_ese(&mut self, value: u8) {
+        self.ese = value
+    }
+    fn tst(&mut self) -> scpi::error::Result<()> {
+        Ok(())
+    }
+    fn rst(&mut self) -> scpi::error::Result<()> {
+        Ok(())
+    }
+    fn cls(&mut self) -> scpi::error::Result<()> {
+        self.esr = 0;
+        Ok(())
+    }
+    fn opc(&mut self) -> scpi::error::Result<()> {
+        self.esr |= 1;
+        Ok(())
+    }
+}
+const PLAIN_TREE: scpi::tree::Node<'static, Plain> = {
+    use scpi::tree::prelude::*;
+    use scpi_contrib::{ieee488_cls, ieee488_ese, ieee488_esr, ieee488_opc, ieee488_rst, ieee488_sre, ieee488_stb, ieee488_tst, ieee488_wai};
+    Branch { name: b"", default: false, sub: &[ieee488_cls!(), ieee488_ese!(), ieee488_esr!(), ieee488_opc!(), ieee488_rst!(), ieee488_sre!(), ieee488_stb!(), ieee488_tst!(), ieee488_wai!()] }
+};
+
+fn plain_history(rng: &mut Rng, ctx: &mut Ctx) {
+    let mut dev = Plain { sre: 0, ese: 0, esr: 0 };
+    let (mut sre, mut ese, mut esr) = (0u8, 0u8, 0u8);
+    let mut c = Context::default();
+    let mut trace: Vec<String> = vec![];
+    let mut hh = 0u64;
+    for _ in 0..(if ctx.cfg.tiny { 8 } else { 6 + rng.usize(30) }) {
+        bump(ctx, 1);
+        c.mav = rng.bool();
+        let k = rng.usize(12);
+        let v: u8 = match rng.usize(4) {
+            0 => 1 << rng.usize(8),
+            1 => 0,
+            2 => 255,
+            _ => rng.next() as u8,
+        };
+        let (msg, want, fails): (String, Option<String>, bool) = match k {
+            0 | 1 => {
+                ese = v;
+                (format!("*ESE {}", v), None, false)
+            }
+            2 | 3 => {
+                sre = v;
+                (format!("*SRE {}", v), None, false)
+            }
+            4 => ("*ESE?".into(), Some(ese.to_string()), false),
+            5 => ("*SRE?".into(), Some(sre.to_string()), false),
+            6 => {
+                let r = esr;
+                esr = 0;
+                ("*ESR?".into(), Some(r.to_string()), false)
+            }
+            7 => {
+                esr |= 1;
+                ("*OPC".into(), None, false)
+            }
+            8 => {
+                esr = 0;
+                ("*CLS".into(), None, false)
+            }
+            9 => {
+                // an undefined header: command error, bit 5 of ESR
+                esr |= 0x20;
+                ("*FOO".into(), None, true)
+            }
+            _ => {
+                let mut b = 0u8;
+                if esr & ese != 0 {
+                    b |= 0x20;
+                }
+                if c.mav {
+                    b |= 0x10;
+                }
+                if b & sre != 0 {
+                    b |= 0x40;
+                }
+                ("*STB?".into(), Some(b.to_string()), false)
+            }
+        };
+        hh = mix(hh, k as u64 * 256 + v as u64);
+        let mut resp: Vec<u8> = Vec::new();
+        let r = PLAIN_TREE.run(msg.as_bytes(), &mut dev, &mut c, &mut resp);
+        trace.push(format!("{}{}", msg, if c.mav { " [mav]" } else { "" }));
+        let want_bytes = want.clone().map(|w| format!("{}\n", w).into_bytes()).unwrap_or_default();
+        if r.is_err() != fails || (!fails && resp != want_bytes) || (dev.esr, dev.ese, dev.sre) != (esr, ese, sre) {
+            ctx.violation(&format!("C16:plain-488.2-device:{}", if msg == "*STB?" { "status-byte-differs" } else { "register-or-response-differs" }), jobj(&[("history", jstr(&trace.join(" | "))), ("expected_response", jstr(&want.unwrap_or_default())), ("observed_response", jbytes(&resp)), ("result", jstr(&format!("{:?}", r.map_err(|e| e.get_code())))), ("expected esr/ese/sre", jstr(&format!("{}/{}/{}", esr, ese, sre))), ("observed esr/ese/sre", jstr(&format!("{}/{}/{}", dev.esr, dev.ese, dev.sre)))]));
+            return;
+        }
+        if msg == "*STB?" {
+            ctx.count("plain-488.2.status-bytes-compared");
+        }
+    }
+    ctx.nontrivial(hh);
+}
+
 pub fn run(cfg: &Cfg, rep: &mut Report, focus: Focus) {
+    if focus == Focus::C16 {
+        run_cases(cfg, "plain-488.2-device", cfg.n(8, 200_000, 4_000_000), rep, |rng, ctx| plain_history(rng, ctx));
+    }
     let n = cfg.n(30, 750_000, 15_000_000) / if focus == Focus::C05 || focus == Focus::C10 { 4 } else { 1 };
     run_cases(cfg, "histories", n, rep, |rng, ctx| match ctx.index % 3 {
         0 => run_history::<std::collections::VecDeque<Error>>(rng, ctx, focus),
